@@ -426,8 +426,14 @@ def feasible(c):
     return r
 
 
+class Budget(BaseException):
+    """wall-clock budget of the case exhausted (raised from fork so that fork-heavy paths cannot hang a check)"""
+
+
 def fork(cond):
     """Python branch on a symbolic boolean: follow the decision schedule, prefer True."""
+    if getattr(CTX, 'deadline', None) and time.time() > CTX.deadline:
+        raise Budget('case budget exceeded')
     i = CTX.pos
     CTX.pos += 1
     if i < len(CTX.schedule):
@@ -1100,6 +1106,13 @@ def exp_axioms(products=True):
         for d, prs in buckets.items():
             for (e1, e2), (e3, e4) in itertools.combinations(prs, 2):
                 ax.append(e1 * e4 == e2 * e3)
+        if len(items) <= 8:
+            # few terms: also the conditional form for differences that are equal only semantically
+            prs = [((a, ea), (b, eb)) for (a, ea), (b, eb) in itertools.combinations(items, 2)]
+            for ((a, ea), (b, eb)), ((c, ec), (d2, ed)) in itertools.combinations(prs, 2):
+                if key_of(a - b) != key_of(c - d2):
+                    ax.append(z3.Implies(a - b == c - d2, ea * ed == eb * ec))
+                    ax.append(z3.Implies(a - b == d2 - c, ea * ec == eb * ed))
     return ax
 
 
